@@ -60,6 +60,16 @@ pub fn bo<F: Future>(f: F) -> F::Output {
   v
 }
 
+/// poll once; if Pending wait (parked, flagged like block_on) until the future's waker is invoked;
+/// None = woken but not polled again (the caller drops the future in that state)
+pub fn poll_wait_woken<F: Future>(f: Pin<&mut F>) -> Option<F::Output> {
+  let t = TID.with(|t| t.get());
+  IN_BO[t].store(true, Ordering::SeqCst);
+  let v = sched::poll_then_wait_woken(f);
+  IN_BO[t].store(false, Ordering::SeqCst);
+  v
+}
+
 pub struct CountW(pub AtomicUsize);
 impl Wake for CountW {
   fn wake(self: Arc<Self>) {
@@ -240,11 +250,11 @@ fn op_ok(base: &str, producer: bool, mode: Mode, op: &str) -> bool {
   match (base, producer) {
     ("topic", true) => op == "y" || topic_num("p"),
     ("topic", false) => {
-      matches!(op, "r" | "tr" | "rt" | "D" | "y" | "cl" | "cln" | "clk") || (asy && matches!(op, "rc" | "rp")) || topic_num("sub") || topic_num("uns")
+      matches!(op, "r" | "tr" | "rt" | "D" | "y" | "cl" | "cln" | "clk") || (asy && matches!(op, "rc" | "rp" | "rw")) || topic_num("sub") || topic_num("uns")
     }
-    (_, true) => matches!(op, "s" | "ts" | "y") || (asy && op == "sc"),
-    ("spmc", false) => matches!(op, "r" | "tr" | "rt" | "D" | "y" | "dc" | "cl") || (asy && matches!(op, "rc" | "rp")),
-    (_, false) => matches!(op, "r" | "tr" | "rt" | "D" | "y") || (asy && matches!(op, "rc" | "rp")),
+    (_, true) => matches!(op, "s" | "ts" | "y") || (asy && matches!(op, "sc" | "sw")),
+    ("spmc", false) => matches!(op, "r" | "tr" | "rt" | "D" | "y" | "dc" | "cl") || (asy && matches!(op, "rc" | "rp" | "rw")),
+    (_, false) => matches!(op, "r" | "tr" | "rt" | "D" | "y") || (asy && matches!(op, "rc" | "rp" | "rw")) || (base == "mpmcb" && op == "K"),
   }
 }
 
@@ -261,6 +271,8 @@ pub struct OneRun {
   pub done: Vec<bool>,
   pub cur_op: Vec<usize>,
   pub dropped_rx: bool,
+  /// Some(probe of the first kept-alive receiver) when a thread executed op `K`
+  pub kept_probe: Option<Option<(usize, usize)>>,
 }
 
 pub fn finish_run(n: usize, rr: sched::RunResult, results: Vec<Vec<Ev>>) -> OneRun {
@@ -276,10 +288,16 @@ pub fn finish_run(n: usize, rr: sched::RunResult, results: Vec<Vec<Ev>>) -> OneR
     done: (0..n).map(|i| DONE[i].load(Ordering::SeqCst)).collect(),
     cur_op: (0..n).map(|i| CUR_OP[i].load(Ordering::SeqCst)).collect(),
     dropped_rx: DROPPED_RX.load(Ordering::SeqCst),
+    kept_probe: None,
   }
 }
 
-pub const RECV_OPS: [&str; 7] = ["r", "rt", "D", "rc", "rp", "tr", "n"];
+pub const RECV_OPS: [&str; 8] = ["r", "rt", "D", "rc", "rp", "rw", "tr", "n"];
+
+/// some future of this run was dropped while Pending (sc / rc / sw / rw / async rt)
+pub fn any_cancelled(r: &OneRun) -> bool {
+  r.results.iter().any(|v| v.iter().any(|e| matches!(e.res, Res::Cancelled | Res::SendCancelled(_))))
+}
 
 /// Clauses for a run that did not complete.  `fam`: extra clause prefix of the flavour family
 /// (`C07` for spmc, `C08` for topic, none for point-to-point channels).
@@ -304,6 +322,11 @@ pub fn stuck_clauses(sc: &Scenario, r: &OneRun, fam: Option<&str>) -> Option<(St
       let mut cl = vec!["C05:deadlock".to_string()];
       if parked.iter().any(|&i| i < n && r.in_bo[i]) {
         cl.push("C06:missed-wake".into());
+      }
+      if any_cancelled(r) {
+        // a thread is stuck after a pending future was dropped: the drop may have swallowed the
+        // wake-up the stuck thread needed (C06, also for a sync thread next to async ones)
+        cl.push("C06:cancel-swallowed-wake".into());
       }
       if all_producers_done && parked.iter().any(|&i| i < n && in_recv(i)) {
         cl.push("C04:no-disc".into());
